@@ -366,3 +366,41 @@ Proof.
     + intros D. destruct (Dx D) as (y & Hy & P). exists y. split; [apply in_or_app; auto|exact P].
     + intros D d F. exact (NFc id e d L Sx D F).
 Qed.
+
+(* ------------------------------------------------------------------ deferred-output timers *)
+
+Lemma holds_ce_exact c id e d : ce_defer e = false -> holds_ce c id e d -> holds_chk c id d.
+Proof. unfold holds_ce, holds_chk. intros ->. auto. Qed.
+
+Definition no_defer (st : lstate) : Prop := forall id e, l_chks st !! id = Some e -> ce_defer e = false.
+
+Lemma uss_chks_defer g st c id e :
+  l_chks (uss_apply g st c) !! id = Some e -> ce_defer e = true ->
+  exists e0, l_chks st !! id = Some e0 /\ ce_defer e0 = true.
+Proof.
+  intros L Df. rewrite uss_chks_lookup in L.
+  assert (L' : uss_chk (g_interval g) (l_chks st !! id) (c_chks c !! id) = Some e).
+  { destruct (decide (g_serf g = id)); [|exact L]. destruct (l_chks st !! id); [exact L|discriminate]. }
+  clear L. unfold uss_chk in L'.
+  destruct (l_chks st !! id) as [e0|], (c_chks c !! id) as [r|]; try discriminate.
+  - exists e0. split; [reflexivity|]. destruct (ce_del e0); [congruence|].
+    destruct (ce_def e0); injection L' as <-; exact Df.
+  - exists e0. split; [reflexivity|]. injection L' as <-. exact Df.
+  - injection L' as <-. discriminate.
+Qed.
+
+(* syncs never start a timer: when none is pending before, none is pending after, and "held up
+   to the Output of a pending timer" is plain "held" *)
+Theorem no_defer_sync_full g os oc st c fs st' c' fs' log err :
+  no_defer st -> sync_full g os oc st c fs = (st', c', fs', log, err) -> no_defer st'.
+Proof.
+  intros ND E. apply sync_full_cases in E as [(-> & _)|(fs1 & la & lb & _ & _ & E & _)]; [exact ND|].
+  pose proof (sync_changes_pres g (fun st _ _ => no_defer st) os oc (uss_apply g st c) c fs1) as H.
+  rewrite E in H. cbn in H. apply H.
+  - intros s k l s' k' l' _ Ec _ _ _ Hn. unfold no_defer in *. rewrite Ec. exact Hn.
+  - intros s k l s' k' ev Hn Hs id e L. destruct (ce_defer e) eqn:Df; [|reflexivity].
+    destruct (step_chks_back _ _ _ _ _ _ _ _ Hs L) as (e1 & L1 & S1).
+    rewrite <- (Hn id e1 L1). symmetry. exact (cle_defer _ _ S1 Df).
+  - intros id e L. destruct (ce_defer e) eqn:Df; [|reflexivity].
+    destruct (uss_chks_defer _ _ _ _ _ L Df) as (e0 & L0 & D0). rewrite <- (ND id e0 L0). symmetry. exact D0.
+Qed.
